@@ -24,6 +24,10 @@ fn run(ctx: &mut Ctx, extra: &mut BTreeMap<String, String>) {
     for depth in 0..30u8 {
       let layer = nested::get_or_create(depth);
       let ns = nside(depth); let n = n_hash(depth);
+      // hostile call history: the RING functions are first used with other NSIDE values sharing factors with this one (m.2^depth, m odd),
+      // so that any state kept between calls (caches keyed on part of the arguments) is primed with a foreign key
+      for &m in [3u64, 5, 7].iter() { let ns2 = m * ns; if ns2 > (1u64 << 29) { continue; } let n2 = 12 * ns2 * ns2;
+        for &r in [0u64, n2 / 2, n2 - 1, (2 * ns2 * (ns2 + 1)).min(n2 - 1)].iter() { let _ = catch(|| cdshealpix::ring::center(ns2 as u32, r)); } }
       if depth <= exh {
         let (a, b) = (n * k as u64 / shards, n * (k as u64 + 1) / shards);
         let mut seen_xor = 0u64;
